@@ -301,6 +301,51 @@ def analyse_class(ctx, relpath, cls, rid):
                        'memoised lookup (transitively) reads clears that lookup\'s cache after its last write on every path '
                        '(or, for re-indexers that query while rebuilding, before its first write and first internal lookup)')
 def r1(ctx):
+    return _r1_impl(ctx)
+
+
+def _hand_written_memos(ctx):
+    """a lookup table a method fills itself (`hit = self.T.get(key)` ... `self.T[key] = value`): the stored value may depend only on what the key contains -
+    an argument that shapes the value but is missing from the key makes every later request with another value of that argument get the answer of the first"""
+    methods = class_methods(ctx.ix, FEATURES, CLS)
+    n = 0
+    for name, f in methods.items():
+        params = {a.arg for a in f.args.args + f.args.kwonlyargs} - {'self'}
+        defs = {}
+        for s_ in walk_no_nested(f):
+            if isinstance(s_, ast.Assign) and len(s_.targets) == 1 and isinstance(s_.targets[0], ast.Name):
+                defs.setdefault(s_.targets[0].id, []).append(s_.value)
+
+        def deps(e, seen=()):
+            out = set()
+            for n_ in names_in(e):
+                if n_ in params:
+                    out.add(n_)
+                elif n_ in defs and n_ not in seen:
+                    for v_ in defs[n_]:
+                        out |= deps(v_, seen + (n_,))
+            return out
+        for s_ in walk_no_nested(f):
+            if not (isinstance(s_, ast.Assign) and len(s_.targets) == 1 and isinstance(s_.targets[0], ast.Subscript) and isinstance(s_.targets[0].value, ast.Attribute)
+                    and isinstance(s_.targets[0].value.value, ast.Name) and s_.targets[0].value.value.id == 'self'):
+                continue
+            tab, key = s_.targets[0].value.attr, s_.targets[0].slice
+            ktxt = src(key)
+            looked = [c for c in walk_no_nested(f) if (isinstance(c, ast.Call) and isinstance(c.func, ast.Attribute) and c.func.attr == 'get' and src(c.func.value) == f'self.{tab}' and c.args and src(c.args[0]) == ktxt)
+                      or (isinstance(c, ast.Compare) and len(c.ops) == 1 and isinstance(c.ops[0], (ast.In, ast.NotIn)) and src(c.left) == ktxt and src(c.comparators[0]) == f'self.{tab}')]
+            if not looked:
+                continue
+            n += 1
+            kd, vd = deps(key), deps(s_.value)
+            extra = sorted(vd - kd)
+            ctx.emit('C16-R1', not extra, FEATURES, s_, f'{CLS}.{name} memoises in self.{tab} under `{ktxt}` ' + ('(key covers every argument the stored value depends on)' if not extra else
+                     f'(= {sorted(kd)}), but the stored value is computed from {sorted(vd)}: it depends on {extra}, which the key lacks - a later request with another `{extra[0]}` is answered with the entry '
+                     f'of the first request (a subset / superset of the right features)'), key=f'{name}:memo-key-complete:{tab}', what=f'{CLS}.{name}: hand-written lookup cache keyed without {extra}')
+    return n
+
+
+def _r1_impl(ctx):
+    n_hand = _hand_written_memos(ctx)
     res = analyse_class(ctx, FEATURES, CLS, 'C16-R1')
     if res is None:
         # no memoised method left: nothing can be stale
@@ -319,7 +364,7 @@ def r1(ctx):
                   '; '.join(problems) + ' -> a later lookup can return the answer of the previous state'),
                  key=f'{wname}:clears:{mname}',
                  what=f'{CLS}.{wname} mutates {fields} without clearing the lru_cache of {mname}')
-    ctx.need('C16-R1', n, 4 if memo else 0, 'mutator x memoised-lookup pairs')
+    ctx.need('C16-R1', n, 2 * len(memo), 'mutator x memoised-lookup pairs')
 
 
 @rule('C16', 'C16-R2', 'adding a feature marks the container unsorted on every path and every index-based lookup re-indexes first when unsorted')
